@@ -574,3 +574,48 @@ def bt_match(pattern, string, flags=0, pos=0):
 
     r = m(list(tree), 0, pos, lambda j: j)
     return None if r is None else r - pos
+
+
+# ---------------------------------------------------------------------------
+# access to sub-trees (used to take a pattern apart: groups, alternatives)
+# ---------------------------------------------------------------------------
+def parse_tree(pattern, flags=0):
+    try:
+        tree = sp.parse(pattern, flags)
+    except Exception as e:
+        raise AnalysisError('cannot parse regex %r: %s' % (pattern, e))
+    return tree, tree.state.flags
+
+
+def nfa_from_items(items, flags=0, top=MAXC):
+    """NFA for a list of (op, av) items of a parsed pattern."""
+    nfa = NFA(top)
+    b = _Builder(nfa, flags)
+    nfa.start, nfa.final = b.build(list(items))
+    return nfa
+
+
+def top_groups(pattern, flags=0):
+    """For a pattern that is a sequence of capturing groups: list of item lists, one per group."""
+    tree, fl = parse_tree(pattern, flags)
+    out = []
+    for op, av in tree:
+        if op is not sc.SUBPATTERN:
+            raise AnalysisError('pattern %r is not a sequence of groups' % (pattern,))
+        out.append(list(av[3]))
+    return out, fl
+
+
+def alternatives(items):
+    """Alternatives of an item list that consists of one BRANCH (else the list itself as single alternative)."""
+    items = list(items)
+    if len(items) == 1 and items[0][0] is sc.BRANCH:
+        return [list(a) for a in items[0][1][1]]
+    if len(items) == 1 and items[0][0] is sc.SUBPATTERN and not items[0][1][0]:
+        return alternatives(items[0][1][3])
+    return [items]
+
+
+def is_end_assertion(items):
+    items = list(items)
+    return len(items) == 1 and items[0][0] is sc.AT and items[0][1] in (sc.AT_END, sc.AT_END_STRING)
